@@ -561,12 +561,17 @@ impl<Block: ChainBlock> BlockTree<Block> {
         if n > 0 { Self::lemma_first_child_with(cs, h, n - 1); }
     }
 
-    // [trusted:assumed-contract] BlockTree::get_child_blocks (`self.children.iter().map(|c| &c.root).collect()`,
-    // a closure pipeline Verus cannot read) returns the roots of the children in order.
-    #[verifier::external_body]
-    fn get_child_blocks(&self) -> (r: Vec<&Block>)
-        ensures deref_seq(r@) =~= self.child_roots(),
-    { unimplemented!() }
+// BlockTree::get_child_blocks (blocktree.rs:343). R16: `xs.iter().map(|c| e).collect()` => a loop pushing `e`
+//@extract file=canister/src/blocktree.rs in="impl<Block> BlockTree<Block>" item="fn get_child_blocks" props=C01,C06,C10
+//@ ret r
+//@ rewrite R16 "self\.children\.iter\(\)\.map\(\|c\| &c\.root\)\.collect\(\)" => "{ let mut vp_out: Vec<&Block> = Vec::new(); for c in self.children.iter() { vp_out.push(&c.root); } vp_out }"
+//@ spec
+//@| ensures deref_seq(r@) =~= self.child_roots(),
+//@ loop 1 binder=itc
+//@| invariant
+//@|     vp_out@.len() == itc.index@,
+//@|     forall|k: int| 0 <= k < itc.index@ ==> *(#[trigger] vp_out@[k]) == self.children@[k].root,
+//@end
 
 //@extract file=canister/src/blocktree.rs in="impl<Block: ChainBlock> BlockTree<Block>" item="fn get_chain_with_tip_reverse" props=C01,C06
 //@ ret res
